@@ -20,7 +20,7 @@ YOUR TASK: produce ONE realistic source change (the kind of regression a real re
   (b) the existing test suite still passes exactly as before: `cd {wt}/teamserver && go test -mod=mod -vet=off -count=1 ./... 2>&1 | grep -E "^(ok|FAIL|---)" ` — note that on the untouched tree two packages already FAIL (yaotl/ext/typeexpr TestGetTypeJSON and yaotl/hclwrite TestBlockLabels); your change must not alter that picture.
 The change must need something SPECIFIC to manifest — a particular interleaving, a fault at a particular point, a multi-step sequence of operations, an unusual but legal input, or two cooperating sites that each look fine alone — not something any ordinary use would expose at once. Keep it small (a few lines to a few dozen) and plausible; do not add dead code, obviously malicious code or comments that give it away. Variant number for this request: {n} — if you can think of several candidate changes, pick the {'first' if n=='1' else 'second, different in kind from the most obvious one,'} one.
 
-Also write a DEMONSTRATION: a Go test file (or small program) placed inside the worktree that FAILS with your change applied and PASSES on the untouched tree, exercising the real code (not a mock). Verify both directions yourself (use `git stash` / `git stash pop`, or `git diff > /tmp/x.diff; git checkout -- .; ...; git apply /tmp/x.diff`).
+Also write a DEMONSTRATION: a Go test file (or small program) placed inside the worktree that FAILS with your change applied and PASSES on the untouched tree, exercising the real code (not a mock). Verify both directions yourself (do NOT use `git stash` (it is shared with other worktrees of this repository); use `git diff > /tmp/x.diff; git checkout -- .; ...; git apply /tmp/x.diff`).
 
 DELIVERABLES, written into the directory {wt}/SEED/ (create it):
   - patch.diff   : `git diff` of your source change only (relative to the worktree root, applicable with `git apply` from the repository root), NOT including the demonstration
